@@ -344,7 +344,7 @@ func c18Verify(c *Ctx, dec *ssa.Function) {
 	for _, e := range ana.Exits(fn) {
 		if e.Panic {
 			es := edgesMatching(b, "bin<!=>(len(p0), 32)")
-			r.Check(mustPass(fn, e.Instr.Block(), plainEdges(es)), "C18.verify-gates.panic", c.ipos(e.Instr), "panic only for a public key that is not 32 bytes (outside the quantifier)")
+			r.Check(exitMustPass(fn, e, plainEdges(es)), "C18.verify-gates.panic", c.ipos(e.Instr), "panic only for a public key that is not 32 bytes (outside the quantifier)")
 			continue
 		}
 		if ana.IsConstBool(e.Results[0], true) {
@@ -422,7 +422,7 @@ func c18Codec(c *Ctx, dec *ssa.Function) {
 		for _, e := range ana.Exits(fn) {
 			if e.Panic {
 				es := edgesMatching(b, "bin<!=>(ext#1("+cdec+"), nil)")
-				r.Check(mustPass(fn, e.Instr.Block(), plainEdges(es)), "C18.codec-layout.reader-panic", c.ipos(e.Instr), "panic only on the impossible error of decoding a 16-byte challenge zero-extended to 32 bytes (< 2^128 < L)")
+				r.Check(exitMustPass(fn, e, plainEdges(es)), "C18.codec-layout.reader-panic", c.ipos(e.Instr), "panic only on the impossible error of decoding a 16-byte challenge zero-extended to 32 bytes (< 2^128 < L)")
 				continue
 			}
 			et := b.Of(e.Results[0], e.Instr)
@@ -432,7 +432,7 @@ func c18Codec(c *Ctx, dec *ssa.Function) {
 			}
 			for _, x := range g {
 				acc := plainEdges(edgesMatching(b, x.acc))
-				r.Check(len(acc) > 0 && mustPass(fn, e.Instr.Block(), acc), "C18.codec-layout.reader-gate."+x.name, c.ipos(e.Instr), "successful decode passes the %s gate", x.name)
+				r.Check(len(acc) > 0 && exitMustPass(fn, e, acc), "C18.codec-layout.reader-gate."+x.name, c.ipos(e.Instr), "successful decode passes the %s gate", x.name)
 			}
 			st := b.Of(fn.Params[0], e.Instr)
 			want := "obj(p0, store(faddr<#0>(self), ext#0(call<*>(slice(p1, 0, 32)))), store(faddr<#1>(self), " + cdec + "), store(faddr<#2>(self), " + sdec + "))"
@@ -455,7 +455,7 @@ func c18Codec(c *Ctx, dec *ssa.Function) {
 			vt, et := b.Of(e.Results[0], e.Instr), b.Of(e.Results[1], e.Instr)
 			if et.Is("nil") {
 				acc := plainEdges(edgesMatching(b, "bin<==>("+um+", nil)"))
-				r.Check(stripObj(vt).IsParam(0) && mustPass(fn, e.Instr.Block(), acc), "C18.codec-layout.setbytes", c.ipos(e.Instr), "SetBytes returns the receiver only when UnmarshalBinary succeeded")
+				r.Check(stripObj(vt).IsParam(0) && exitMustPass(fn, e, acc), "C18.codec-layout.setbytes", c.ipos(e.Instr), "SetBytes returns the receiver only when UnmarshalBinary succeeded")
 			} else {
 				r.Check(vt.Is("nil") && matches(um, et), "C18.codec-layout.setbytes-error", c.ipos(e.Instr), "SetBytes returns a nil proof together with the decode error")
 			}
@@ -472,7 +472,7 @@ func c18Codec(c *Ctx, dec *ssa.Function) {
 			vt, et := b.Of(e.Results[0], e.Instr), b.Of(e.Results[1], e.Instr)
 			if et.Is("nil") {
 				acc := plainEdges(edgesMatching(b, "bin<==>(ext#1("+sb+"), nil)"))
-				r.Check(matches("call<(*"+vrfPkg+"Proof).Hash>(ext#0("+sb+"))", vt) && mustPass(fn, e.Instr.Block(), acc), "C18.codec-layout.proof-to-hash", c.ipos(e.Instr), "ProofToHash = Hash() of the successfully decoded proof")
+				r.Check(matches("call<(*"+vrfPkg+"Proof).Hash>(ext#0("+sb+"))", vt) && exitMustPass(fn, e, acc), "C18.codec-layout.proof-to-hash", c.ipos(e.Instr), "ProofToHash = Hash() of the successfully decoded proof")
 			} else {
 				r.Check(vt.Is("nil") && matches("ext#1("+sb+")", et), "C18.codec-layout.proof-to-hash-error", c.ipos(e.Instr), "decode error propagated with no hash")
 			}
@@ -556,13 +556,13 @@ func c18Hashes(c *Ctx, dec *ssa.Function) {
 		for _, e := range ana.Exits(h2c) {
 			if e.Panic {
 				out := plainEdges(edgesMatching(b, "bin<>>(ind<+1>(0), 255)"))
-				r.Check(mustPass(h2c, e.Instr.Block(), out), "C18.hash-inputs.encode-to-curve-exhausted", c.ipos(e.Instr), "panic only after all 256 counters failed")
+				r.Check(exitMustPass(h2c, e, out), "C18.hash-inputs.encode-to-curve-exhausted", c.ipos(e.Instr), "panic only after all 256 counters failed")
 				continue
 			}
 			t := b.Of(e.Results[0], e.Instr)
 			_, ok := ana.MatchX(c.P, "obj(ext#0("+cand+"), call<(*ed.Point).MultByCofactor>(self, self))", t)
-			okGate := mustPass(h2c, e.Instr.Block(), plainEdges(edgesMatching(b, "bin<==>(ext#1("+cand+"), nil)"))) &&
-				mustPass(h2c, e.Instr.Block(), plainEdges(edgesMatching(b, "bin<!=>(call<(*ed.Point).Equal>(_, "+glob("identityPoint")+"), 1)")))
+			okGate := exitMustPass(h2c, e, plainEdges(edgesMatching(b, "bin<==>(ext#1("+cand+"), nil)"))) &&
+				exitMustPass(h2c, e, plainEdges(edgesMatching(b, "bin<!=>(call<(*ed.Point).Equal>(_, "+glob("identityPoint")+"), 1)")))
 			r.Check(ok && okGate, "C18.hash-inputs.encode-to-curve-result", c.ipos(e.Instr), "H = 8·candidate for the first counter whose candidate decodes canonically and whose multiple is not the identity")
 		}
 	}
@@ -618,7 +618,7 @@ func c18Hashes(c *Ctx, dec *ssa.Function) {
 		for _, e := range ana.Exits(fn) {
 			if e.Panic {
 				es := plainEdges(edgesMatching(b, "bin<!=>(len(p0), 64)", "bin<!=>(ext#1("+strings.Replace(x, "$", "", -1)+"), nil)", "bin<!=>(ext#1(obj(call<ed.NewScalar>, call<(*ed.Scalar).SetUniformBytes>(self, _))), nil)"))
-				r.Check(mustPass(fn, e.Instr.Block(), es), "C18.hash-inputs.prove-panics", c.ipos(e.Instr), "Prove panics only for a private key that is not 64 bytes or on impossible scalar-setting errors")
+				r.Check(exitMustPass(fn, e, es), "C18.hash-inputs.prove-panics", c.ipos(e.Instr), "Prove panics only for a private key that is not 64 bytes or on impossible scalar-setting errors")
 			}
 		}
 	}
